@@ -23,13 +23,13 @@ TECHNIQUE = "CFG ordering, exhaustive length evaluation of the sniff, table agre
 EXPLANATION = (
     "Decided by interpreting the sources (wrapper, V1Parser, V2Parser, exception classes; no import of twisted) on concrete inputs and comparing "
     "only observable behaviour - getPeer()/getHost(), bytes given to the application, connection closed - with what the PROXY protocol prescribes: "
-    "(a) every proper prefix of the sample valid v1/v2 headers as first segment must not close the connection (today it does: finding F47), whole "
+    "(a) every proper prefix of the sample valid v1/v2 headers as first segment must not close the connection (it used to: finding F47, fixed in 97ae46d), whole "
     "headers are recognised, first segments that cannot start a header are refused or parsed and never forwarded unparsed; V1Parser.feed / "
     "V2Parser.feed as step functions wait for an incomplete header, hand a just-completed one to parse() and return exactly the bytes after it; "
     "V1Parser.parse on the sample lines yields source = (src, sport), destination = (dst, dport) of the right family and refuses malformed lines "
-    "with InvalidProxyHeader (the bare 'PROXY UNKNOWN' line is refused today: finding F47u); getPeer/getHost answer the header's addresses or fall "
-    "back to the transport; (d) header + payload delivered at once and in every 2-way / many 3-way segmentations whose first segment is long enough "
-    "for the sniff give the same observable result, with all object state threaded from call to call. Structural (CFG, helpers inlined): bytes reach "
+    "with InvalidProxyHeader (the bare 'PROXY UNKNOWN' line used to be refused: finding F47u, fixed in 7c304b5); getPeer/getHost answer the header's addresses or fall "
+    "back to the transport; (d) header + payload delivered at once and in every 2-way / many 3-way segmentations (cut anywhere, also inside the signature) give the "
+    "same observable result, with all object state threaded from call to call. Structural (CFG, helpers inlined): bytes reach "
     "the wrapped protocol only as pass-through once the header is known or as the 'remaining' returned by feed(data); InvalidProxyHeader from feed "
     "closes and forwards nothing; a stored parser is not re-sniffed; (c) tables: ADDRESSFORMATS rows / sizes / slice width, version and signature "
     "constants, allowed v1 protocols, V2 source/destination slots. Informational only: .decode()/int() outside convertError. Not decided: equality of "
@@ -98,7 +98,9 @@ V2_SAMPLES = {
     "LOCAL": _SIG + b"\x20\x00" + struct.pack("!H", 0),
 }
 GARBAGE = [b"GET / HTTP/1.1\r\nHost: x\r\n\r\n", b"PROXZ TCP4 192.0.2.1 198.51.100.7 1 2\r\n", _SIG + b"\x11\x11" + struct.pack("!H", 12) + bytes(12),
-           b"\x16\x03\x01\x02\x00\x01\x00\x01\xfc\x03\x03" + bytes(20), _SIG[:11] + b"X" + b"\x21\x11\x00\x0c" + bytes(12)]
+           b"\x16\x03\x01\x02\x00\x01\x00\x01\xfc\x03\x03" + bytes(20), _SIG[:11] + b"X" + b"\x21\x11\x00\x0c" + bytes(12),
+           # short segments that are not the beginning of either signature: nothing to wait for
+           b"GE", b"hello", b"\r\nX", b"PROXZ", b"P "]
 
 
 def must_pass_under(g, facts, via, srcs=None, to=None):
@@ -408,7 +410,7 @@ def _evaluated(ctx, K):
 def _cuts(stream, hlen, first_min, thorough):
     n = len(stream)
     two = [(i,) for i in range(first_min, n)]
-    hot = sorted({i for i in list(range(first_min, first_min + 10)) + list(range(hlen - 3, hlen + 4)) + [(first_min + hlen) // 2, n - 1] if first_min <= i < n})
+    hot = sorted({i for i in list(range(first_min, first_min + 17)) + list(range(hlen - 3, hlen + 4)) + [(first_min + hlen) // 2, n - 1] if first_min <= i < n})
     pool = list(range(first_min, n)) if thorough and n <= 70 else hot
     three = [(i, j) for i in pool for j in pool if i < j]
     return two + three
@@ -417,13 +419,13 @@ def _cuts(stream, hlen, first_min, thorough):
 def _segmentation(ctx):
     total = 0
     payloads = [b"hello", b"", b"a\r\nb\r\n"]
-    for ver, samples, first_min in (("v1", V1_SAMPLES, 8), ("v2", V2_SAMPLES, 16)):
+    for ver, samples, first_min in (("v1", V1_SAMPLES, 1), ("v2", V2_SAMPLES, 1)):
         for name, h in samples.items():
             for pl in payloads:
                 stream = h + pl
                 label = f"{ver} {name} header + payload {pl!r}"
                 with ctx.section("segmentation " + label):
-                    c = QW + f"dataReceived | <{label}, first segment >= {first_min} bytes>"
+                    c = QW + f"dataReceived | <{label}>"
                     try:
                         whole = _drive(ctx, [stream])
                         want_hdr = h[:-2] if ver == "v1" else h
@@ -447,8 +449,7 @@ def _segmentation(ctx):
                         ctx.violation("segmentation/invariant", c, f"interpreting the wrapper on {stream[:40]!r}... raises {e}")
                         continue
                     ctx.check(bad is None, "segmentation/invariant", c,
-                              "what the application sees depends on how header + payload are cut into segments (first segment long enough for the "
-                              "version sniff): " + (f"delivered as {[bytes(x[:24]) + (b'...' if len(x) > 24 else b'') for x in bad[0]]!r} -> (getPeer, getHost, forwarded, closed, raised) = "
+                              "what the application sees depends on how header + payload are cut into segments: " + (f"delivered as {[bytes(x[:24]) + (b'...' if len(x) > 24 else b'') for x in bad[0]]!r} -> (getPeer, getHost, forwarded, closed, raised) = "
                                                     f"{bad[1]!r}; delivered at once -> {whole!r}" if bad else ""),
                               detail=f"{n} segmentations agree with whole-stream delivery")
     ctx.extra["segmentations_evaluated"] = total
@@ -806,12 +807,25 @@ MUTANTS = [
     Mutant("v2-completeness-guard-off-by-one-seen-structurally", V2, "        if len(self.buffer) < size:\n            return (None, None)", "        if not len(self.buffer) > size:\n            return (None, None)",
            expect_rule="v2feed/completeness-normal-form"),
     Mutant("sniff-signature-slice-too-narrow", W, "                and data[:12] == V2Parser.PREFIX", "                and data[:11] == V2Parser.PREFIX", expect_rule="sniff/signature-widths"),
+    Mutant("F47-reverted-short-first-segment-refused", W, "            data = self._undecided + data\n            self._undecided = b\"\"\n", "",
+           more=[(W, "            elif (len(data) < 16 and data[:12] == V2Parser.PREFIX[: len(data)]) or (\n                len(data) < 8 and data[:5] == V1Parser.PROXYSTR[: len(data)]\n            ):\n"
+                     "                # So far this is the beginning of a PROXY protocol signature,\n                # but the segment was too short to decide; wait for more.\n"
+                     "                self._undecided = data\n                return None\n", "")],
+           expect_rule="sniff/valid-prefix-rejected"),
+    Mutant("F47-half-reverted-buffer-never-joined", W, "            data = self._undecided + data\n            self._undecided = b\"\"\n", "            self._undecided = b\"\"\n",
+           expect_rule="s"),
+    Mutant("F47-wait-test-too-generous-garbage-never-refused", W, "            elif (len(data) < 16 and data[:12] == V2Parser.PREFIX[: len(data)]) or (\n                len(data) < 8 and data[:5] == V1Parser.PROXYSTR[: len(data)]\n            ):\n",
+           "            elif len(data) < 16:\n", expect_rule="s"),
     Mutant("v1-unknown-not-allowed", V1, "    ALLOWED_NET_PROTOS = (\n        TCP4_PROTO,\n        TCP6_PROTO,\n        UNKNOWN_PROTO,\n    )", "    ALLOWED_NET_PROTOS = (\n        TCP4_PROTO,\n        TCP6_PROTO,\n    )",
            expect_rule="v1table/allowed-protocols"),
 ]
 SILENT = [
-    Silent("F47-repaired-by-buffering", W, _SNIFF_OLD, _SNIFF_FIXED,
-           more=[(W, "        self._parser: Union[V2Parser, V1Parser, None] = None\n", "        self._parser: Union[V2Parser, V1Parser, None] = None\n        self._pending = b\"\"\n")]),
+    Silent("F47-fix-respelled-wait-test-in-a-helper", W,
+           "            elif (len(data) < 16 and data[:12] == V2Parser.PREFIX[: len(data)]) or (\n                len(data) < 8 and data[:5] == V1Parser.PROXYSTR[: len(data)]\n            ):\n",
+           "            elif self._mayStillBeAHeader(data):\n",
+           more=[(W, "    def getPeer(self) -> interfaces.IAddress:",
+                  "    def _mayStillBeAHeader(self, data):\n        seen = len(data)\n        if seen < 16 and data[:12] == V2Parser.PREFIX[:seen]:\n            return True\n"
+                  "        return seen < 8 and data[:5] == V1Parser.PROXYSTR[:seen]\n\n    def getPeer(self) -> interfaces.IAddress:")]),
     Silent("sniff-tests-respelled", W, "            elif len(data) >= 8 and data[:5] == V1Parser.PROXYSTR:", "            elif not len(data) < 8 and data.startswith(V1Parser.PROXYSTR):"),
     Silent("feed-result-via-locals", W, "            if remaining:\n                self.wrappedProtocol.dataReceived(remaining)\n",
            "            if remaining is not None and len(remaining) > 0:\n                self.wrappedProtocol.dataReceived(remaining)\n"),
@@ -820,10 +834,9 @@ SILENT = [
            "        if len(self.buffer) > 107 and self.NEWLINE not in self.buffer:\n            raise InvalidProxyHeader()\n"
            "        if self.NEWLINE not in self.buffer[-(len(data) + len(self.NEWLINE) - 1):]:\n            return (None, None)\n        lines = (self.buffer).split(self.NEWLINE, 1)\n"),
     Silent("sniff-extracted-into-helper", W,
-           "        if parser is None:\n            if (\n                len(data) >= 16\n                and data[:12] == V2Parser.PREFIX\n                and ord(data[12:13]) & 0b11110000 == 0x20\n            ):\n"
-           "                self._parser = parser = V2Parser()\n            elif len(data) >= 8 and data[:5] == V1Parser.PROXYSTR:\n                self._parser = parser = V1Parser()\n"
-           "            else:\n                self.loseConnection()\n                return None\n",
-           "        if parser is None:\n            parser = self._pickParser(data)\n            if parser is None:\n                self.loseConnection()\n                return None\n            self._parser = parser\n",
+           "            if (\n                len(data) >= 16\n                and data[:12] == V2Parser.PREFIX\n                and ord(data[12:13]) & 0b11110000 == 0x20\n            ):\n"
+           "                self._parser = parser = V2Parser()\n            elif len(data) >= 8 and data[:5] == V1Parser.PROXYSTR:\n                self._parser = parser = V1Parser()\n            elif (",
+           "            parser = self._pickParser(data)\n            if parser is not None:\n                self._parser = parser\n            elif (",
            more=[(W, "    def getPeer(self) -> interfaces.IAddress:",
                   "    def _pickParser(self, data):\n        if len(data) >= 16 and data[:12] == V2Parser.PREFIX and ord(data[12:13]) & 0b11110000 == 0x20:\n            return V2Parser()\n"
                   "        if len(data) >= 8 and data[:5] == V1Parser.PROXYSTR:\n            return V1Parser()\n        return None\n\n    def getPeer(self) -> interfaces.IAddress:")]),
